@@ -28,6 +28,7 @@ ASSUMPTIONS = [
 BUDGET = {"quick": (1200, 4), "thorough": (25000, 16)}
 
 _NOVAL = {"$novalue": True}
+_ANYVAL = {"$anyvalue": True}
 
 
 def _project(draw, v):
@@ -143,6 +144,42 @@ def strategy(tier):
     return _case()
 
 
+# patterns in the style of real formats: explicit counts above the generator's limit for open-ended repeats (32),
+# also inside other quantifiers
+FORMATS = ["^[0-9a-f]{40}$", "^(?:[0-9a-f]{40} ){1,3}$", "^v[0-9]+(?:-g[0-9a-f]{40})?$", "(?:[A-Z]{33}){2}", "(?:a{40,}){2}",
+           "(?:\\d{64})*", "(?:x{33,35}y)+", "^(?:[a-z]{1,63}\\.){1,3}[a-z]{2,63}$", "[01]{128}", "(?:[0-9a-f]{2}:){5}[0-9a-f]{2}",
+           "^[A-Za-z0-9+/]{44}={0,2}$", "(?:(?:ab){33}c){0,2}", "\\w{0,100}", "(?:-?\\d{1,40}){3}"]
+
+
+def exhaustive(tier):
+    """finite corners no random draw is likely to hit: float ranges among the subnormal numbers and at the ends of the
+    double range (single-number ranges included), realistic regex formats - each under the lowest, the highest and a
+    middle outcome of every draw, bare and inside a container"""
+    scripts = ([0.0] * 12, [1.0] * 12, [0.5] * 12, [1.0, 0.0] * 6)
+    tiny = 5e-324
+    fl = []
+    for k in range(-5, 6):
+        for j in (0, 1, 2, 3):
+            fl.append({"t": "float", "min": k * tiny, "max": (k + j) * tiny, "order": ["min", "max"]})
+        fl.append({"t": "float", "min": k * tiny, "max": 1.0, "order": ["max", "min"]})
+        fl.append({"t": "float", "min": -1.0, "max": k * tiny, "order": ["min", "max"]})
+    big = 1.7976931348623157e308
+    for lo, hi in ((-big, big), (1e308, big), (-big, -1e308), (big, big), (-big, -big), (-1e308, 1e308), (0.0, big),
+                   (2.2250738585072014e-308, 2.225073858507202e-308), (-0.0, 0.0), (0.0, -0.0)):
+        fl.append({"t": "float", "min": lo, "max": hi, "order": ["min", "max"]})
+    for spec in fl:
+        for script in scripts:
+            yield {"spec": spec, "witness": spec["min"], "rng": script, "seed": None}
+    for p in FORMATS:
+        base = {"t": "str", "pattern": p}
+        for spec in (base, {"t": "list", "form": "typed", "elem": base, "len": ["eq", 2]},
+                     {"t": "dict", "entries": [{"key": "k", "opt": False, "spec": base}], "relaxed": True},
+                     {"t": "any", "alts": [base]}):
+            for script in scripts[:3]:
+                yield {"spec": spec, "witness": _ANYVAL, "rng": script, "seed": None}
+            yield {"spec": spec, "witness": _ANYVAL, "rng": [], "seed": 11}
+
+
 def _r(x):
     try:
         return repr(x)
@@ -210,17 +247,18 @@ def check(case, ctx):
     if case["witness"] == _NOVAL:
         ctx.label("skip:no-witness-built")
         return
-    w = values.realize(case["witness"])
-    if spec["t"] != "subst" and model.conforms(spec, w) is False:
-        raise HarnessError(f"witness {w!r} does not conform to {spec!r} by the reference model")
-    try:
-        wres = validate(S, w)
-    except Exception:  # noqa
-        ctx.label("skip:validate-raised-on-witness")
-        return
-    if wres.has_errors():
-        ctx.label("skip:witness-rejected-by-validate")
-        return
+    if case["witness"] != _ANYVAL:      # (_ANYVAL: satisfiable by inspection - the hand-written formats of the exhaustive part)
+        w = values.realize(case["witness"])
+        if spec["t"] != "subst" and model.conforms(spec, w) is False:
+            raise HarnessError(f"witness {w!r} does not conform to {spec!r} by the reference model")
+        try:
+            wres = validate(S, w)
+        except Exception:  # noqa
+            ctx.label("skip:validate-raised-on-witness")
+            return
+        if wres.has_errors():
+            ctx.label("skip:witness-rejected-by-validate")
+            return
 
     # ---- generate under the scripted / seeded RNG ---------------------------------------------
     entry = len(case["rng"]) % 3
